@@ -698,9 +698,6 @@ def plain_document(rng, tmp):
                 bad = True
             if spec.kind == 'resp' and spec.content.name == 'xhtml':
                 bad = True      # known finding xml-accepted-as-image
-        for style in gen.styles:
-            if has_local_font(style['items'] if style['kind'] == 'style' else style['sheet']['items']):
-                bad = True      # known finding font-data-then-local-typeerror
         if not bad:
             return gen
     return None
@@ -715,21 +712,7 @@ def is_plain(gen):
             return False
         if spec.kind == 'resp' and spec.content.name == 'xhtml':
             return False
-    for style in gen.styles:
-        if has_local_font(style['items'] if style['kind'] == 'style' else style['sheet']['items']):
-            return False
     return True
-
-
-def has_local_font(items):
-    for item in items:
-        if item['kind'] == 'fontface' and any(s['kind'] == 'local' for s in item['srcs']):
-            return True
-        if item['kind'] == 'media' and has_local_font(item['items']):
-            return True
-        if item['kind'] == 'import' and has_local_font(item['sheet']['items']):
-            return True
-    return False
 
 
 def reachable_rules(gen):
@@ -887,6 +870,11 @@ def fixed_probes(tmp):
                 f'<body><p>text</p></body></html>')
         cases.append((f'font-{name}', html, {base + 'f.otf': spec},
                       {'urls': {base + 'f.otf'}, 'must_fetch': [base + 'f.otf']}))
+    # regression for the repaired finding font-data-then-local-typeerror: a fetched but unusable font, then local()
+    html = (f'<html><head>{head}<style>@font-face{{font-family:c20probe{next(_counter)};src:url(f.otf),local("No Such Font C20")}}'
+            f'</style></head><body><p>text</p></body></html>')
+    cases.append(('font-data-then-local', html, {base + 'f.otf': html_instead},
+                  {'urls': {base + 'f.otf'}, 'must_fetch': [base + 'f.otf']}))
     for name, html, table, expect in cases:
         what = oracle(html, base, table, str(tmp), expect)
         item = None
@@ -961,17 +949,7 @@ def finding_xml_image():
             not any(isinstance(b, boxes.TextBox) and b.text == 'ALT' for b in found))
 
 
-def finding_font_typeerror():
-    html = (f'<style>@font-face{{font-family:c20finding{next(_counter)};src:url(http://x.test/f.ttf),local("DejaVu Sans")}}'
-            '</style><p>x</p>')
-    try:
-        _render(html, lambda url: {'string': b'not a font', 'mime_type': 'font/ttf'}, write=False)
-    except TypeError:
-        return True
-    return False
-
-
 def finding_replays():
     docs.quiet()
     return {'lazy-local-image-reread': finding_lazy_local, 'read-error-not-funnelled': finding_read_error,
-            'xml-accepted-as-image': finding_xml_image, 'font-data-then-local-typeerror': finding_font_typeerror}
+            'xml-accepted-as-image': finding_xml_image}
